@@ -117,6 +117,12 @@ func genDoc(r *rand.Rand) cdoc {
 		return d
 	default:
 		d := gen.HTMLDoc(r)
+		// a hostile-grammar document whose sheet makes every element a multi-column container
+		// ("* { columns: N }") can take many minutes to lay out (nested column layouts; C07's domain,
+		// witness findings/C15/slow-universal-columns.json): drawn again
+		for k := 0; k < 8 && reUniversalColumns.MatchString(d.HTML); k++ {
+			d = gen.HTMLDoc(r)
+		}
 		if r.Intn(5) == 0 {
 			d.Engine = "gotext"
 		}
@@ -374,6 +380,8 @@ func (c *checker) exclude(di int, o *outcome) {
 
 // extraRepeats: additional fresh renders of each biased document in a det case (pass 2b).
 const extraRepeats = 4
+
+var reUniversalColumns = regexp.MustCompile(`(^|[\s,}>])\*\s*\{[^}]*\bcolumn(s|-count|-width)\s*:`)
 
 var (
 	reGridSpan    = regexp.MustCompile(`span\s+[0-9]|grid-(column|row|area)\s*:[^;"}]*/`)
